@@ -13,7 +13,10 @@ tie    : every translated block is executed on real objects under `sys.settrace`
 oracle : independent of the model — while the method runs, whenever any frame of package code
          starts (any depth) the shared array must hold its original content
          (`temporary-content-visible`), and it must hold it when the method returns or raises
-         (`edit-left-behind`); the object must be the cached one.
+         (`edit-left-behind`); the object must be the cached one.  Every case is run under the
+         default numpy error state and under `np.errstate(all="raise")`, on networks that include
+         zero-length links (`1 / path_lengths` divides by zero) and lengths near the largest double
+         (the sums overflow), so that the computations inside the window do raise.
 """
 import importlib
 import sys
@@ -24,7 +27,7 @@ from . import common
 from .c01 import quiet
 
 LETTER = {"mask": "m", "edit": "e", "restore": "r", "comp": "c", "call": "k", "exit": "x",
-          "other": "o"}
+          "other": "o", "tryB": "t", "fin": "f", "tryE": "y"}
 
 
 def code_of(cls, func):
@@ -139,6 +142,14 @@ def networks(ctx, quick):
                     W[i, j] = float(rng.choice([1, 1, 2, 3, 4, 5, n, n - 1 if n > 2 else 1]))
         if not directed:
             W = W + W.T
+        extreme = rng.choice([None, None, "zero-length", "huge"])
+        if extreme == "zero-length" and A.any():
+            i, j = [tuple(e) for e in np.argwhere(A)][rng.randrange(int(A.sum()))]
+            W[i, j] = 0.0
+            if not directed:
+                W[j, i] = 0.0
+        elif extreme == "huge":
+            W = np.where(A > 0, 8e307, 0.0)
 
         def mk(A=A, W=W, directed=directed):
             net = Network(adjacency=A.copy(), directed=directed, silence_level=3)
@@ -146,7 +157,7 @@ def networks(ctx, quick):
                 net.set_link_attribute("len", W.copy())
             return net
         yield {"n": n, "directed": directed, "kind": kind, "adjacency": A.tolist(),
-               "lengths": W.tolist(), "has_links": bool(A.any())}, mk
+               "lengths": W.tolist(), "has_links": bool(A.any()), "extreme": extreme}, mk
 
 
 def window_tie(ctx, eff, quick):
@@ -179,10 +190,13 @@ def window_tie(ctx, eff, quick):
         steps = w["steps"]
         stmts = []                      # (first step index, line, end) per statement, in order
         for i, s in enumerate(steps):
+            if s.get("marker"):
+                continue                # `try:` / `finally:` — no statement of their own
             if not stmts or (stmts[-1][1], stmts[-1][2]) != (s["line"], s["end"]):
                 stmts.append((i, s["line"], s["end"]))
         for desc, mk in networks(ctx, quick):
-            for arg in (["len"] if desc["has_links"] else []) + [None]:
+            for arg, err in [(a, e) for a in (["len"] if desc["has_links"] else []) + [None]
+                             for e in ("ignore", "raise")]:
                 if params != ["link_attribute"]:
                     undriven.append(w["site"])
                     break
@@ -193,8 +207,10 @@ def window_tie(ctx, eff, quick):
                         quiet(net.path_lengths, arg)
                     except Exception:  # noqa
                         pass
-                with np.errstate(all="ignore"):
+                with np.errstate(all=err):
                     events, outcome, held = quiet(traced, net, w["func"], [arg], code, w["var"])
+                if outcome[0] == "raised":
+                    ctx.count(f'window:{w["func"]}:raises-under-errstate-{err}:' + outcome[1].split(":")[0])
                 lines = [e for e in events if e[0] == "line" and e[2] is not None]
                 block_lines = [e for e in lines if any(a <= e[1] <= b for _, a, b in stmts)]
                 key = f'{w["func"]}({"len" if arg else None})'
@@ -206,10 +222,11 @@ def window_tie(ctx, eff, quick):
                 ctx.count("window:path-lengths-" + ("cached-before" if warm else "computed-inside"))
                 if np.isinf(x0).any():
                     ctx.count("window:content-has-inf")
-                ctx.case(("window", w["site"], arg, desc["adjacency"], desc["lengths"]), True,
+                ctx.case(("window", w["site"], arg, err, desc["adjacency"], desc["lengths"]), True,
                          {"method": w["func"], "link_attribute": arg, "n": desc["n"],
                           "kind": desc["kind"], "directed": desc["directed"]})
                 replay = dict(desc, method=w["func"], link_attribute=arg, site=w["site"],
+                              numpy_errstate=err,
                               how="net = Network(adjacency, directed); net.set_link_attribute('len', "
                                   "lengths); net.<method>(link_attribute)")
                 # ---- oracle (no model involved) ---------------------------------------------
@@ -268,9 +285,17 @@ def window_tie(ctx, eff, quick):
                 # the content changes only at an edit, which is the last step of its statement:
                 # every step of a statement sees what the statement's first line saw
                 out = []
-                for s in steps:
-                    first = [i for i, a, b in stmts if (a, b) == (s["line"], s["end"])][0]
-                    enc = encode(seen[first])
+                for k, s in enumerate(steps):
+                    if s.get("marker"):
+                        # a marker changes nothing: it sees what the next statement sees
+                        nxt = [t for t in steps[k + 1:] if not t.get("marker")]
+                        s = nxt[0] if nxt else None
+                    if s is None:
+                        content = ret[-1][2]
+                    else:
+                        first = [i for i, a, b in stmts if (a, b) == (s["line"], s["end"])][0]
+                        content = seen[first]
+                    enc = encode(content)
                     if enc is None:
                         out = None
                         break
